@@ -501,7 +501,7 @@ pub fn run(run: &mut Run) {
     run.rule = "Complete enumeration of all 2^32 four-byte identifiers (both tiers), judged by a reference \
         classifier written from the InSim v9 rule and a name table transcribed from the specification; \
         non-trivial = byte 3 is NUL (built-in-shaped, zero, or a mod id whose top byte is 0), counted exactly. \
-        A second part lists the 20 names with case/character neighbours."
+        A second part lists the 20 names with case/character neighbours; further parts send identifiers through SLC / NPL / RES frames in three surroundings and through IS_MAL (where every value is a mod id), through readers that deliver the 4 bytes piecewise, and compare equality / hashing / set membership of pairs of identifiers with their bytes."
         .into();
     run.assumptions = vec![
         "the 20 built-in car names are those listed in InSim.txt v9".into(),
